@@ -27,16 +27,19 @@ ASSUMPTIONS = [
 ]
 WORLD = {"quick": dict(N=7, k=2, Ng=6), "thorough": dict(N=9, k=3, Ng=8)}
 NSH = 64
+SCALE_KS = {"quick": (5, 12), "thorough": (4, 5, 6, 8, 12, 20, 33)}
 GENOME = "ATGACTTGATAGGCATGCCTAAGT"
 
 
 def world_description(tier):
     w = WORLD[tier]
-    return f"layouts N={w['N']} k<={w['k']} x strands x CDS placements x f0 in 0..2 x all windows; gene/collection twins on N={w['Ng']}"
+    return (f"layouts N={w['N']} k<={w['k']} x strands x CDS placements x f0 in 0..2 x all windows; gene/collection twins on N={w['Ng']}; scale family: "
+            f"transcripts of {SCALE_KS[tier]} exons, CDS placements and chunk windows on ladders of exon boundaries")
 
 
 def shards(tier, seed):
-    return [{"tier": tier, "part": "tx", "i": i} for i in range(NSH)] + [{"tier": tier, "part": "coll", "i": i} for i in range(16)]
+    return ([{"tier": tier, "part": "tx", "i": i} for i in range(NSH)] + [{"tier": tier, "part": "coll", "i": i} for i in range(16)]
+            + [{"tier": tier, "part": "scale", "i": i} for i in range(32)])
 
 
 def codon_pos(locs):
@@ -70,7 +73,7 @@ def cmp(res, name, case, o, exp, sig=None, **kw):
 
 
 def check_tx(res, N, exons, strand, cds, f0, a, b, cs="+"):
-    genome = GENOME[:N]
+    genome = GENOME[:N] if N <= len(GENOME) else (GENOME * (N // len(GENOME) + 1))[:N]
     chrom = lib.chrom_parent(genome)
     chunk = mk_chunk(genome, a, b, cs)
     case = dict(kind="tx", N=N, exons=[list(x) for x in exons], strand=strand, cds=list(cds) if cds else None, f0=f0, a=a, b=b, cs=cs)
@@ -239,7 +242,7 @@ def check_tx(res, N, exons, strand, cds, f0, a, b, cs="+"):
 
 
 def check_feature(res, N, exons, strand, a, b, cs="+"):
-    genome = GENOME[:N]
+    genome = GENOME[:N] if N <= len(GENOME) else (GENOME * (N // len(GENOME) + 1))[:N]
     chrom, chunk = lib.chrom_parent(genome), mk_chunk(genome, a, b, cs)
     case = dict(kind="feat", N=N, exons=[list(x) for x in exons], strand=strand, a=a, b=b, cs=cs)
     kw = dict(sequence_name="chrV", feature_name="f", feature_types=["x", "a"], qualifiers={"q": ["2", "1"]})
@@ -270,7 +273,7 @@ def check_feature(res, N, exons, strand, a, b, cs="+"):
 
 def check_collections(res, N, exons, strand, a, b):
     """gene / feature collection / annotation collection twins"""
-    genome = GENOME[:N]
+    genome = GENOME[:N] if N <= len(GENOME) else (GENOME * (N // len(GENOME) + 1))[:N]
     chrom, chunk = lib.chrom_parent(genome), lib.chunk_parent(genome, a, b)
     case = dict(kind="coll", N=N, exons=[list(x) for x in exons], strand=strand, a=a, b=b)
     ln = sum(e - s for s, e in exons)
@@ -354,6 +357,31 @@ def run_shard(shard):
                     for f0 in (0, 1, 2):
                         check_tx(res, N, exons, strand, (0, ln), f0, a, b, "-")
         res.sample({"exons": [[1, 4], [5, 8]], "strand": "+", "cds": [1, 6], "f0": 1, "window": [2, 7]})
+    elif shard["part"] == "scale":
+        # the scale family (vlib/worlds.py): many-exon transcripts; CDS placements and chunk windows from ladders of
+        # coordinates at (and next to) the first, a middle and the last exon boundary
+        idx = 0
+        tier = shard["tier"]
+        for k, exons in worlds.scale_layouts(tier, offset=2, ks=SCALE_KS[tier], npat=2 if tier == "quick" else 3):
+            N = exons[-1][1] + 2
+            bp = worlds.boundary_points(exons, around=0)
+            ln = bp[-1]
+            pts = sorted({0, bp[1], bp[len(bp) // 2] + 1, bp[-2], ln} & set(range(ln + 1)))
+            placements = [None] + [(c0, c1) for i_, c0 in enumerate(pts) for c1 in pts[i_ + 1:]]
+            mid = exons[len(exons) // 2]
+            wpts = sorted({0, exons[0][0], exons[0][1], exons[1][0] + 1, mid[0], mid[1] - 1, mid[1], exons[-1][0], exons[-1][1] - 1, exons[-1][1], N} & set(range(N + 1)))
+            for strand in "+-":
+                idx += 1
+                if idx % 32 != shard["i"]:
+                    continue
+                for wi, a in enumerate(wpts):
+                    for b in wpts[wi + 1:]:
+                        check_feature(res, N, exons, strand, a, b)
+                        for cds in placements:
+                            for f0 in ((0, 1, 2) if cds and cds[0] == 0 else (0,)):
+                                check_tx(res, N, exons, strand, cds, f0, a, b)
+                        check_tx(res, N, exons, strand, (0, ln), 1, a, b, "-")
+        res.sample({"scale": "many-exon chunk twins", "ks": list(SCALE_KS[tier])})
     else:
         N = w["Ng"]
         idx = 0
